@@ -1341,6 +1341,9 @@ class _NP:
         return r
 
     def log(self, x):
+        if cfg.concrete_floats and _all_plain((x,), {}):
+            with _np.errstate(all="ignore"):
+                return _np.log(x)
         def f(v):
             if isinstance(v, Sym):
                 v = _toreal(v)
@@ -1363,6 +1366,9 @@ class _NP:
         return self._fmap(f, x)
 
     def exp(self, x):
+        if cfg.concrete_floats and _all_plain((x,), {}):
+            with _np.errstate(all="ignore"):
+                return _np.exp(x)
         def f(v):
             if isinstance(v, Sym):
                 return _toreal(v).exp()
@@ -1379,9 +1385,15 @@ class _NP:
         return self._fmap(f, x)
 
     def log1p(self, x):
+        if cfg.concrete_floats and _all_plain((x,), {}):
+            with _np.errstate(all="ignore"):
+                return _np.log1p(x)
         return self._fmap(lambda v: _toreal(_z(v)).log1p(), x)
 
     def log10(self, x):
+        if cfg.concrete_floats and _all_plain((x,), {}):
+            with _np.errstate(all="ignore"):
+                return _np.log10(x)
         raise Inconclusive("log10 not modelled")
 
     def isnan(self, x):
@@ -1735,7 +1747,7 @@ def _delegating(name, f):
         return f
 
     def g(self, *a, **k):
-        if a and _all_plain(a, k) and any(isinstance(x, (_np.ndarray, _np.generic, list, tuple)) for x in a):
+        if a and _all_plain(a, k) and (cfg.concrete_floats or any(isinstance(x, (_np.ndarray, _np.generic, list, tuple)) for x in a)):
             return real(*[x.view(_np.ndarray) if isinstance(x, SArray) else x for x in a], **k)
         return f(self, *a, **k)
 
@@ -1881,6 +1893,8 @@ def symdiv(a, b):
 
 
 def _scalar_div(a, b, array):
+    if cfg.concrete_floats and isinstance(a, (int, float, _np.number)) and isinstance(b, (int, float, _np.number)):
+        return a / b  # fully concrete modules: native division
     if isinstance(a, (bool, _np.bool_)):
         a = int(a)
     if isinstance(b, (bool, _np.bool_)):
